@@ -38,8 +38,8 @@ class C14(BaseCheck):
                  'Thrift compiler emits (py:dynamic); no Thrift compiler is available offline',)
   QUICK_CASES = 480
   THOROUGH_CASES = 4000
-  QUICK_WALL = 45
-  THOROUGH_WALL = 420
+  QUICK_WALL = 180
+  THOROUGH_WALL = 1800
   MIN_DISTINCT = 10
 
   def setup(self, env, tier):
